@@ -6,6 +6,8 @@ from mc.core import bits
 from mc.world import row_bits
 
 PID = 'C04'
+# thread bodies (defined with engine E4, mc/checks/c10_sched.py) that exercise this property's code; explored after the parts below
+SCHED_SETS = [('firesame||firesame', 'call')]
 LEVEL = 'exploration'
 ENGINE = 'E1'
 TIMEOUT_IS_VIOLATION = True
